@@ -489,6 +489,7 @@ pub fn run(tier: &str, only: Option<&Value>) -> i32 {
         }
         outs
     });
+    let mut confirmations = 0;
     for outs in results {
         if outs.len() >= 3 && outs.last().is_some_and(|o| o.died.is_some()) {
             rep.caps.push("a shard was abandoned after three cases that killed or stalled its worker".into());
@@ -508,7 +509,13 @@ pub fn run(tier: &str, only: Option<&Value>) -> i32 {
                     rep.machinery(format!("a worker died before its first case: {how}"));
                     continue;
                 }
-                // confirm alone
+                // confirm alone (the first few; a change that makes dozens of cases hang is
+                // reported from those, the others are only counted)
+                confirmations += 1;
+                if confirmations > 6 {
+                    rep.count("worker_deaths_not_individually_confirmed", 1);
+                    continue;
+                }
                 let again = run_worker(tier, 0, 1, -1, &tokfile, Some(idx));
                 if again.died.is_some() {
                     let c = &all[idx];
